@@ -242,6 +242,96 @@ sequence type at all (split.py:223-224), i.e. when `seqs` is empty -/
 def Split.run (s : Split σ α) (flow : List α) : List α :=
   if s.branches.isEmpty then emptyRun flow else outputs (s.runTrace flow)
 
+/-! ## the documented schedule (specification side of the theorems in `Props/C03.lean`)
+
+These definitions are not transcriptions: they say what the docstring of `Split.run` and the
+property promise.  `Props/C03.lean` proves that `Split.runTrace` equals them. -/
+
+/-- the non-empty consecutive blocks of `b` values of a flow (the last one may be shorter) -/
+def blocksFuel (b : Nat) : Nat → List α → List (List α)
+  | 0, _ => []
+  | _ + 1, [] => []
+  | n + 1, x :: xs => (x :: xs).take b :: blocksFuel b n ((x :: xs).drop b)
+
+/-- the blocks of a flow for a `bufsize`; `None`: the whole (non-empty) flow is one block -/
+def blocks (bufsize : Option Nat) (flow : List α) : List (List α) :=
+  match bufsize with
+  | none => if flow.isEmpty then [] else [flow]
+  | some b => blocksFuel b flow.length flow
+
+/-- every element once, in order; an element whose step returns `none` is dropped -/
+def foldB {β ε : Type} (step : β → List ε × Option β) : List β → List ε × List β
+  | [] => ([], [])
+  | b :: r =>
+    let s := step b
+    let t := foldB step r
+    (s.1 ++ t.1, match s.2 with
+      | none => t.2
+      | some b' => b' :: t.2)
+
+/-- block by block: every active branch once, in branch order -/
+def passes : List (List α) → List (Branch σ α) → List (Ev α) × List (Branch σ α)
+  | [], act => ([], act)
+  | blk :: rest, act =>
+    let p := foldB (stepBranch blk) act
+    let q := passes rest p.2
+    (p.1 ++ q.1, q.2)
+
+/-- the schedule as two nested folds followed by the final pass -/
+def Split.runSpec (s : Split σ α) (flow : List α) : List (Ev α) :=
+  let bl := blocks s.bufsize flow
+  let p := passes bl s.branches
+  p.1 ++ finalPass bl.isEmpty p.2
+
+/-- one block seen by one branch that may already have been dropped -/
+def stepO (buf : List α) : Option (Branch σ α) → List (Ev α) × Option (Branch σ α)
+  | none => ([], none)
+  | some b => stepBranch buf b
+
+/-- the life of ONE branch over the successive blocks, independently of all other branches:
+its contribution to every block, and what is left of it (`none`: dropped) -/
+def life : Option (Branch σ α) → List (List α) → List (List (Ev α)) × Option (Branch σ α)
+  | o, [] => ([], o)
+  | o, blk :: rest =>
+    let s := stepO blk o
+    let l := life s.2 rest
+    (s.1 :: l.1, l.2)
+
+/-- what a branch that is still active contributes after the last block (`fwe`: the flow was
+empty): a Source its complete output (it can only be left if the flow was empty), a
+fill/compute branch its `compute()`, a fill/request branch and a plain Sequence one invocation
+if the flow was empty -/
+def finalOne (fwe : Bool) (b : Branch σ α) : List (Ev α) :=
+  match b.kind with
+  | .source => .call b.id :: outs b.id (b.ops.call b.st).1
+  | .fillCompute => .compute b.id :: outs b.id (b.ops.compute b.st).1
+  | .fillRequest => if fwe then .request b.id :: outs b.id (b.ops.request b.st).1 else []
+  | .sequence => if fwe then .run b.id [] :: outs b.id (b.ops.run b.st []).1 else []
+
+def finalO (fwe : Bool) : Option (Branch σ α) → List (Ev α)
+  | none => []
+  | some b => finalOne fwe b
+
+/-- the contribution of branch `b` to block number `k` of `bl` -/
+def contribution (b : Branch σ α) (bl : List (List α)) (k : Nat) : List (Ev α) :=
+  ((life (some b) bl).1)[k]?.getD []
+
+/-- the contribution of branch `b` after the last block -/
+def finalContribution (b : Branch σ α) (bl : List (List α)) : List (Ev α) :=
+  finalO bl.isEmpty (life (some b) bl).2
+
+/-- THE DOCUMENTED SCHEDULE: block by block, inside a block in branch order, the contribution of
+each branch — which depends on that branch and the blocks only — then the final contributions
+in branch order -/
+def Split.schedule (s : Split σ α) (flow : List α) : List (Ev α) :=
+  let bl := blocks s.bufsize flow
+  (List.range bl.length).flatMap (fun k => s.branches.flatMap (fun b => contribution b bl k))
+    ++ s.branches.flatMap (fun b => finalContribution b bl)
+
+/-- everything that happens to one branch during `Split.run` -/
+def branchTrace (b : Branch σ α) (bl : List (List α)) : List (Ev α) :=
+  (life (some b) bl).1.flatten ++ finalContribution b bl
+
 /-! ## common-type methods (split.py:239-273) -/
 
 /-- which of the optional methods `Split.__init__` creates (split.py:210-224) -/
